@@ -97,6 +97,24 @@ pub fn check_selection_after(input: &[u8], e: u8, pre: Prelude) -> (Vec<(String,
     }
 }
 
+/// documented penalty (upper reading) of each of the eight candidates of (input, mode m, level e, version v), by R alone
+pub fn documented_penalties(input: &[u8], m: usize, e: usize, v: usize) -> [i64; 8] {
+    let g = r::geo_of(v);
+    let n = g.n;
+    let enc: Vec<bool> = g.reg.iter().map(|&x| x == Reg::Data).collect();
+    let mut pens = [0i64; 8];
+    for j in 0..8 {
+        let mut vals = r::encode_symbol(input, m, e, v, j);
+        for i in 0..n * n {
+            if g.reg[i] == Reg::Format {
+                vals[i] = false;
+            }
+        }
+        pens[j] = r::penalty(&vals, &enc, n).1 as i64;
+    }
+    pens
+}
+
 pub fn check_selection_with(input: &[u8], build: &dyn Fn() -> Outcome) -> (Vec<(String, String)>, Option<Selection>, Option<u64>) {
     let mut out = vec![];
     verif::record_candidates(true);
